@@ -135,6 +135,9 @@ func reporterGoroutinesAlive() bool {
 
 var m3Leaked bool
 
+// m3StepTrace, when set, receives the step-level trace of the handshake scenarios (validated against M3StepTrace.tla)
+var m3StepTrace *Trace
+
 var m3Common = map[string]string{"service": "svc", "env": "test", "dc": "x1"}
 
 func m3Execute(sc *m3Scenario, choose sched.Chooser) (ev []M, steps []sched.Step, stuck string) {
@@ -205,6 +208,11 @@ func m3Execute(sc *m3Scenario, choose sched.Chooser) (ev []M, steps []sched.Step
 		return true
 	}
 	s.StepHook = func(st sched.Step) {
+		if m3StepTrace != nil && strings.HasPrefix(sc.Name, "hs-") {
+			// step-level trace: the step about to be taken and the projection of the reporter before it
+			ps := m3.VerifStateOf(rep)
+			m3StepTrace.Emit(M{"e": "step", "t": st.Thread, "p": st.Point, "pending": int(ps.Pending), "done": ps.Done, "qlen": ps.QueueLen})
+		}
 		r.drain(m3Common)
 		if st.Point == "m3c_spin" {
 			spun[st.Thread] = true
@@ -399,6 +407,9 @@ type m3Stats struct {
 
 func m3Emit(tr *Trace, side *Trace, sc *m3Scenario, ev []M, steps []sched.Step, stuck string, st *m3Stats) {
 	execSeq++
+	if m3StepTrace != nil && strings.HasPrefix(sc.Name, "hs-") {
+		m3StepTrace.Emit(M{"e": "endx", "x": execSeq, "scenario": sc.Name})
+	}
 	tr.Emit(M{"e": "scn", "x": execSeq, "scenario": sc.Name, "producers": sc.Producers, "nrep": sc.NRep, "closers": sc.Closers, "flushers": sc.Flushers,
 		"qcap": sc.QCap, "max_packet": sc.MaxPacket, "dests": max1(sc.Dests)})
 	for _, e := range ev {
@@ -448,6 +459,9 @@ func m3DFS(sc *m3Scenario, tr, side *Trace, st *m3Stats, maxExecs int, descendin
 				return len(enabled) - 1
 			}
 			return 0
+		}
+		if m3StepTrace != nil && strings.HasPrefix(sc.Name, "hs-") {
+			m3StepTrace.Emit(M{"e": "scn", "scenario": sc.Name})
 		}
 		ev, steps, stuck := m3Execute(sc, choose)
 		m3Emit(tr, side, sc, ev, steps, stuck, st)
@@ -530,6 +544,7 @@ func init() {
 		rng := rand.New(rand.NewSource(cm.seed + int64(pi)*7919))
 		tr := NewTrace(filepath.Join(cm.out, "trace.ndjson"))
 		side := NewTrace(filepath.Join(cm.out, "scheds.ndjson"))
+		m3StepTrace = NewTrace(filepath.Join(cm.out, "steps.ndjson"))
 		tot := &m3Stats{distinct: map[string]bool{}}
 		var per []M
 		var samples []interface{}
@@ -563,7 +578,8 @@ func init() {
 		}
 		tr.Close()
 		side.Close()
-		writeMeta(cm.out, M{"execs": tot.execs, "cases": tot.execs, "events": tr.N, "steps": tot.steps, "distinct": len(tot.distinct), "stuck": tot.stuck, "stuck_msg": tot.stuckMsg,
+		m3StepTrace.Close()
+		writeMeta(cm.out, M{"step_events": m3StepTrace.N, "execs": tot.execs, "cases": tot.execs, "events": tr.N, "steps": tot.steps, "distinct": len(tot.distinct), "stuck": tot.stuck, "stuck_msg": tot.stuckMsg,
 			"scenarios": per, "samples": samples, "evals": tot.execs, "wall_s": time.Since(t0).Seconds()})
 		fmt.Printf("m3sched: %d executions, %d events, %d steps in %.1fs\n", tot.execs, tr.N, tot.steps, time.Since(t0).Seconds())
 	})
